@@ -44,6 +44,23 @@ theorem resolves_mono {S S' : Schemas} (h : KeysMono S S') (u : Use) (hr : resol
     · cases hx
       exact Or.inr ⟨s', h2, hm.2 _ hk⟩
 
+theorem pkgs_of_mono {S S' : Schemas} (h : KeysMono S S') : S'.map (·.pkg) = S.map (·.pkg) := by
+  induction h with
+  | nil => rfl
+  | cons hs _ ih => simp [hs.1, ih]
+
+theorem KeysMono.refl (S : Schemas) : KeysMono S S := by
+  induction S with
+  | nil => exact .nil
+  | cons s rest ih => exact .cons ⟨rfl, fun _ h => h⟩ ih
+
+theorem KeysMono.trans {S1 S2 S3 : Schemas} (h1 : KeysMono S1 S2) (h2 : KeysMono S2 S3) : KeysMono S1 S3 := by
+  induction h1 generalizing S3 with
+  | nil => cases h2; exact .nil
+  | cons ha _ ih =>
+    cases h2 with
+    | cons hb hrest => exact .cons ⟨hb.1.trans ha.1, fun k hk => hb.2 k (ha.2 k hk)⟩ (ih hrest)
+
 theorem closed_of_mono {S S' : Schemas} (hc : Closed S) (hm : KeysMono S S')
     (hself : ∀ s' ∈ S', ∀ e ∈ s'.objects, selfOK s' e = true)
     (huses : ∀ r ∈ refPositions S', resolves S r.use = true ∨ resolves S' r.use = true) : Closed S' := by
@@ -181,11 +198,11 @@ theorem visitSchemaPure_spec (v : Ty → Outcome Ty) (s s' : Schema) (h : visitS
 theorem closed_visitPure (v : Schemas → Schema → Ty → Outcome Ty) (S S' : Schemas) (hc : Closed S)
     (hv : ∀ cur, ∀ s ∈ S, ∀ t t', (∀ u ∈ Ty.uses s.pkg t, resolves S u = true) → v cur s t = .ok t' →
       ∀ u ∈ Ty.uses s.pkg t', resolves S u = true)
-    (h : visitSchemas (fun cur s => visitSchemaPure (v cur s) s) S = .ok S') : Closed S' := by
+    (h : visitSchemas (fun cur s => visitSchemaPure (v cur s) s) S = .ok S') : Closed S' ∧ KeysMono S S' := by
   have hall := visitSchemas_forall2 _ S S' h
   have hcl := (closed_iff S).mp hc
-  apply closed_of_mono hc
-  · apply forall2_imp hall
+  have hm : KeysMono S S' := by
+    apply forall2_imp hall
     rintro s s' hs ⟨cur, hf⟩
     obtain ⟨hp, _, _, _, hk⟩ := visitSchemaPure_spec _ s s' hf
     refine ⟨hp, ?_⟩
@@ -194,6 +211,8 @@ theorem closed_visitPure (v : Schemas → Schema → Ty → Outcome Ty) (S S' : 
     rw [selfOK_iff] at hself
     rw [hself.1]
     exact hk e he
+  refine ⟨?_, hm⟩
+  apply closed_of_mono hc hm
   · intro s' hs' e he
     obtain ⟨s, hs, cur, hf⟩ := forall2_mem_right hall s' hs'
     obtain ⟨hp, _, _, ho, _⟩ := visitSchemaPure_spec _ s s' hf
